@@ -42,7 +42,9 @@ def parseEnv (t k p x : String) : Option DEnv := do
     phSize := fun o => listGet ps 0 o
     fixOk := fun f o => listGet (listGet xs [] f) '0' o == '1'
     cbAddr := fun i => BitVec.ofNat 64 (listGet ks 0 i)
-    stubAddr := fun n => BitVec.ofNat 64 (0xc000000000 + 16 * n) }
+    stubAddr := fun n => BitVec.ofNat 64 (0xc000000000 + 16 * n)
+    generic := fun f => f == 5 || f == 18                              -- the two instantiations of G5 (harness/c02/generic.go)
+    adaptAddr := fun n => BitVec.ofNat 64 (0xd000000000 + 16 * n) }
   pure { env := env, nT := ts.length, nP := ps.length, nB := 0 }
 
 def nCb : Nat := 20
@@ -116,7 +118,7 @@ def parseStep (d : DEnv) (toks : List String) : Option Op :=
     match kind with
     | "a" => if k < 4 then some (if isStructVia v then .sapply b key kk o kept else .apply b key kk o) else none
     | "r" => some (if isStructVia v then .sret b key o kept else .ret b key o)
-    | "w" => if (isMethod t && v != 2) || isGeneric t then none else some (if isStructVia v then .sret b key o kept else .ret b key o)
+    | "w" => if isMethod t && v != 2 then none else some (if isStructVia v then .sret b key o kept else .ret b key o)
     | "c" => some (if isStructVia v then .scancel b key kept else .cancel b key)
     | "k" => some (if isStructVia v then .skeep b key kept else .keep b key)
     | _ => none
